@@ -21,7 +21,7 @@ def TSAN(scale, shards=2, threads=1, **args):
 PROPS = {
     "C01": dict(bin="c01", oracle=True,
                 legs={"quick": [N], "thorough": [N]},
-                gates=[("hist_keys_min", "axis_class", 7), ("hist_keys_min", "entry", 3),
+                gates=[("hist_keys_min", "axis_class", 9), ("hist_keys_min", "entry", 3),
                        ("nontrivial_min", 100)],
                 assumptions=["tolerance 16*2^-52*Y (2^-23 for f32) with Y the larger bracketing magnitude; "
                              "derived bound of the crate's formula is 11u*Y",
@@ -86,7 +86,7 @@ PROPS = {
                 legs={"quick": [N], "thorough": [N]},
                 gates=[("counter_min", "guess_is_last_index", 1), ("counter_min", "guess_misses_binary_search", 1000),
                        ("counter_min", "lookups_via_interp1d", 1000), ("counter_min", "lookups_via_interp2d", 100),
-                       ("hist_keys_min", "axis_class", 9), ("hist_keys_min", "elem", 4)],
+                       ("hist_keys_min", "axis_class", 10), ("hist_keys_min", "elem", 4)],
                 assumptions=["oracle = std partition_point (independent search), cross-checked by linear scan on short axes",
                              "exhaustive part: every (len <= 40, guess position, rank); random part sampled"]),
     "C10": dict(bin="c10", oracle=False, exhaustive=True,
@@ -132,8 +132,8 @@ PROPS = {
     "C19": dict(bin="c19", oracle=False, exhaustive=True,
                 legs={"quick": [N, MIRI(1.0, shards=13, stratum=1)],
                       "thorough": [N, MIRI(1.0, shards=16, stratum=0), ASAN(1.0, shards=4)]},
-                gates=[("counter_min", "instantiations", 170), ("counter_min", "cast_events", 412),
-                       ("counter_min", "path_comparisons", 850)],
+                gates=[("counter_min", "instantiations", 482), ("counter_min", "cast_events", 1180),
+                       ("counter_min", "path_comparisons", 1474)],
                 assumptions=["type_name distinguishes the types involved (sizes and alignments are compared too)",
                              "Miri is the independent UB arbiter for the cast"]),
     "C17": dict(bin="c17", oracle=False, compile_assert="Send + Sync",
